@@ -44,9 +44,9 @@ def WInv (w : Writer) : Prop :=
 
 theorem DataInv.config {c : CW} (hi : DataInv c) (h0 : c.initialized = false) (a : Bool) (k p : Nat) :
     DataInv { c with nilWriter := false, indexAtStart := a, tempKind := k, cPageSize := p } := by
-  obtain ⟨p1, p2, p3, p4, p5, p6, p7⟩ := hi.pristine h0
+  obtain ⟨p1, p2, p3, p4, p5, p6, p7, p8⟩ := hi.pristine h0
   constructor
-  · intro _; exact ⟨p1, p2, p3, p4, p5, p6, p7⟩
+  · intro _; exact ⟨p1, p2, p3, p4, p5, p6, p7, p8⟩
   · simp only [CW.stream, p3, p4, p5]
     exact ⟨by split <;> rfl, by omega⟩
   · intro h; simp only at h; rw [h0] at h; simp at h
@@ -55,6 +55,7 @@ theorem DataInv.config {c : CW} (hi : DataInv c) (h0 : c.initialized = false) (a
   · simp only [p1, p7]; simp
   · simp [p2]
   · intro h; simp only [p1] at h; simp at h
+  · simp only [p2, p8]; simp [ResEntries]
 
 theorem Writer.init_winv (cw : CodecW) (w : Writer) (h : WInv w) :
     WInv (w.init cw).1 ∧ ((w.init cw).2 = none → (w.init cw).1.inited = true) := by
